@@ -248,6 +248,9 @@ func (g *MySessGen) whereID(t TableSpec, useParam bool, params *[]myBound, quali
 	ids := g.IDs[t.Name]
 	idc := t.Cols[0]
 	pick := func() Val {
+		if r.Intn(8) == 0 {
+			return Val{Type: fakepg.Int4, I: -int64(1 + r.Intn(100))} // matches nothing; a negative integer literal / parameter
+		}
 		if len(ids) == 0 || r.Intn(6) == 0 {
 			return Val{Type: fakepg.Int4, I: int64(9000 + r.Intn(100))}
 		}
